@@ -74,6 +74,7 @@ class Names:
     """identifier and type choices (C06 renames them; results must not change)"""
     def __init__(self, var=lambda n: f"v{n}", rel=lambda r: f"r{r}", ity="i64", const=lambda n: str(n)):
         self.var, self.rel, self.ity, self.const = var, rel, ity, const
+        self.nested_mul = False       # print `a * b` as `crate::common::nested_mul(a, b)`: the product computed by a NESTED program instance run with run() inside the rule
         self.at_patterns = False      # print `if let Some(v) = e` as `if let at_v @ Some(v) = e` (an `ident @ subpattern` binding whose identifier nobody reads)
 
 def col_types(p, r, nm):
@@ -105,6 +106,7 @@ def rs_ex(e, sc, nm, want="int"):
     a, b = rs_ex(e[1], sc, nm), rs_ex(e[2], sc, nm)
     op = {"add": "+", "sub": "-", "mul": "*"}.get(e[0])
     r = f"({a} {op} {b})" if op else f"std::cmp::{e[0]}({a}, {b})"
+    if e[0] == "mul" and getattr(nm, "nested_mul", False) and nm.ity == "i64": r = f"crate::common::nested_mul({a}, {b})"
     return wrap_lat(r, want)
 
 def wrap_lat(s, want):
